@@ -14,6 +14,7 @@ import (
 	"fmt"
 	"math"
 	"runtime"
+	"runtime/debug"
 	"sort"
 	"strings"
 	"sync"
@@ -62,6 +63,98 @@ type raceBatch struct {
 var raceDefaults = []time.Duration{0, bcache.NoExpire, -5 * ms, time.Hour, time.Duration(math.MaxInt64), 10 * time.Second}
 var raceLong = []time.Duration{10 * time.Second, time.Hour, time.Duration(math.MaxInt64), year250, 10 * time.Second}
 
+type wplan struct {
+	kind  int
+	ttl   time.Duration
+	v     int
+	yield int
+}
+
+func planWriter(r *vhlib.Rng, v int) wplan {
+	p := wplan{kind: r.Intn(7), v: v, yield: r.Intn(3)}
+	switch r.Intn(3) {
+	case 0:
+		p.ttl = bcache.NoExpire
+	case 1:
+		p.ttl = bcache.DefaultExpire
+	case 2:
+		p.ttl = raceLong[r.Intn(len(raceLong))]
+	}
+	return p
+}
+
+// raceStoreCall performs one writer call of a race round and records its bracket and outcome
+func raceStoreCall(c *bcache.BCache[int, int], def time.Duration, k int, p wplan) raceStore {
+	st := raceStore{ok: true}
+	var t0, t1 time.Time
+	switch p.kind {
+	case 0, 1:
+		st.kind, st.op = "SetNoExpire", fmt.Sprintf("OSet %d %d (-1)", k, p.v)
+		st.desc = fmt.Sprintf("SetNoExpire(%d,%d)", k, p.v)
+		t0 = time.Now()
+		c.SetNoExpire(k, p.v)
+		t1 = time.Now()
+	case 2:
+		st.kind, st.op = "Set", fmt.Sprintf("OSet %d %d %s", k, p.v, vhlib.Z(int64(p.ttl)))
+		st.desc = fmt.Sprintf("Set(%d,%d,%s)", k, p.v, durStr(p.ttl))
+		t0 = time.Now()
+		c.Set(k, p.v, p.ttl)
+		t1 = time.Now()
+	case 3:
+		st.kind, st.op = "SetDefault", fmt.Sprintf("OSet %d %d %s", k, p.v, vhlib.Z(int64(def)))
+		st.desc = fmt.Sprintf("SetDefault(%d,%d)", k, p.v)
+		t0 = time.Now()
+		c.SetDefault(k, p.v)
+		t1 = time.Now()
+	case 4, 5:
+		st.kind, st.op = "SetIfAbsent", fmt.Sprintf("OSetIfAbsent %d %d %s", k, p.v, vhlib.Z(int64(p.ttl)))
+		t0 = time.Now()
+		st.ok = c.SetIfAbsent(k, p.v, p.ttl)
+		t1 = time.Now()
+		st.desc = fmt.Sprintf("SetIfAbsent(%d,%d,%s)=%v", k, p.v, durStr(p.ttl), st.ok)
+	case 6:
+		st.kind, st.op = "Replace", fmt.Sprintf("OReplace %d %d %s", k, p.v, vhlib.Z(int64(p.ttl)))
+		t0 = time.Now()
+		st.ok = c.Replace(k, p.v, p.ttl)
+		t1 = time.Now()
+		st.desc = fmt.Sprintf("Replace(%d,%d,%s)=%v", k, p.v, durStr(p.ttl), st.ok)
+	}
+	st.a, st.b = t0.UnixNano(), t1.UnixNano()
+	return st
+}
+
+// racePanic keeps the first panic of the code under test raised inside a race goroutine
+var (
+	racePanicMu sync.Mutex
+	racePanic   string
+)
+
+// raceGuard: deferred in every race goroutine: a panic of the code under test is recorded (and reported as a
+// violation) instead of killing the harness; writers are counted down even then so that nobody spins for ever
+func raceGuard(wg *sync.WaitGroup, writersLeft *int32) {
+	if r := recover(); r != nil {
+		racePanicMu.Lock()
+		if racePanic == "" {
+			racePanic = fmt.Sprintf("%v\n%s", r, debug.Stack())
+		}
+		racePanicMu.Unlock()
+	}
+	if writersLeft != nil {
+		atomic.AddInt32(writersLeft, -1)
+	}
+	wg.Done()
+}
+
+func reportRacePanics(w *vhlib.Writer, label string) {
+	racePanicMu.Lock()
+	p := racePanic
+	racePanic = ""
+	racePanicMu.Unlock()
+	if p != "" {
+		w.Violation(label, "panic", p)
+	}
+}
+
 func obsCoq(o raceObs, t0 int64) string {
 	if !o.hit {
 		return "None"
@@ -92,24 +185,10 @@ func runRaceBatch(r *vhlib.Rng, nKeysBatch int, batchNo int) raceBatch {
 		}
 		nG, nW := 1+r.Intn(4), 1+r.Intn(3)
 		rd := raceRound{key: k, stores: make([]raceStore, nW)}
-		type wplan struct {
-			kind  int
-			ttl   time.Duration
-			v     int
-			yield int
-		}
 		wp := make([]wplan, nW)
 		for i := range wp {
 			val++
-			wp[i] = wplan{kind: r.Intn(7), v: batchNo*100000 + val, yield: r.Intn(3)}
-			switch r.Intn(3) {
-			case 0:
-				wp[i].ttl = bcache.NoExpire
-			case 1:
-				wp[i].ttl = bcache.DefaultExpire
-			case 2:
-				wp[i].ttl = raceLong[r.Intn(len(raceLong))]
-			}
+			wp[i] = planWriter(r, batchNo*100000+val)
 		}
 		gyield := make([]int, nG)
 		for i := range gyield {
@@ -124,7 +203,7 @@ func runRaceBatch(r *vhlib.Rng, nKeysBatch int, batchNo int) raceBatch {
 		gcnt := make([]int, nG)
 		for gi := 0; gi < nG; gi++ {
 			go func(gi int) {
-				defer wg.Done()
+				defer raceGuard(&wg, nil)
 				ready.Done()
 				for atomic.LoadInt32(&gate) == 0 {
 				}
@@ -151,51 +230,17 @@ func runRaceBatch(r *vhlib.Rng, nKeysBatch int, batchNo int) raceBatch {
 		}
 		for wi := 0; wi < nW; wi++ {
 			go func(wi int) {
-				defer wg.Done()
+				defer raceGuard(&wg, &writersLeft)
 				p := wp[wi]
-				st := raceStore{ok: true}
+				var st raceStore
 				ready.Done()
 				for atomic.LoadInt32(&gate) == 0 {
 				}
 				for y := 0; y < p.yield; y++ {
 					runtime.Gosched()
 				}
-				var t0, t1 time.Time
-				switch p.kind {
-				case 0, 1:
-					st.kind, st.op = "SetNoExpire", fmt.Sprintf("OSet %d %d (-1)", k, p.v)
-					st.desc = fmt.Sprintf("SetNoExpire(%d,%d)", k, p.v)
-					t0 = time.Now()
-					c.SetNoExpire(k, p.v)
-					t1 = time.Now()
-				case 2:
-					st.kind, st.op = "Set", fmt.Sprintf("OSet %d %d %s", k, p.v, vhlib.Z(int64(p.ttl)))
-					st.desc = fmt.Sprintf("Set(%d,%d,%s)", k, p.v, durStr(p.ttl))
-					t0 = time.Now()
-					c.Set(k, p.v, p.ttl)
-					t1 = time.Now()
-				case 3:
-					st.kind, st.op = "SetDefault", fmt.Sprintf("OSet %d %d %s", k, p.v, vhlib.Z(int64(def)))
-					st.desc = fmt.Sprintf("SetDefault(%d,%d)", k, p.v)
-					t0 = time.Now()
-					c.SetDefault(k, p.v)
-					t1 = time.Now()
-				case 4, 5:
-					st.kind, st.op = "SetIfAbsent", fmt.Sprintf("OSetIfAbsent %d %d %s", k, p.v, vhlib.Z(int64(p.ttl)))
-					t0 = time.Now()
-					st.ok = c.SetIfAbsent(k, p.v, p.ttl)
-					t1 = time.Now()
-					st.desc = fmt.Sprintf("SetIfAbsent(%d,%d,%s)=%v", k, p.v, durStr(p.ttl), st.ok)
-				case 6:
-					st.kind, st.op = "Replace", fmt.Sprintf("OReplace %d %d %s", k, p.v, vhlib.Z(int64(p.ttl)))
-					t0 = time.Now()
-					st.ok = c.Replace(k, p.v, p.ttl)
-					t1 = time.Now()
-					st.desc = fmt.Sprintf("Replace(%d,%d,%s)=%v", k, p.v, durStr(p.ttl), st.ok)
-				}
-				st.a, st.b = t0.UnixNano(), t1.UnixNano()
+				st = raceStoreCall(c, def, k, p)
 				rd.stores[wi] = st
-				atomic.AddInt32(&writersLeft, -1)
 			}(wi)
 		}
 		ready.Wait()
@@ -256,7 +301,12 @@ func emitRaces(w *vhlib.Writer, rng *vhlib.Rng, nBatches, nKeysBatch int) {
 			break
 		}
 		batchesRun++
-		br := runRaceBatch(rng.Fork(), nKeysBatch, b+1)
+		var br raceBatch
+		if p, v := vhlib.Recover(func() { br = runRaceBatch(rng.Fork(), nKeysBatch, b+1) }); p {
+			w.Violation("race expired-get vs store", "panic", fmt.Sprintf("%v\n%s", v, debug.Stack()))
+			continue
+		}
+		reportRacePanics(w, "race expired-get vs store")
 		skipped += br.skipped
 		for _, rd := range br.rounds {
 			rounds++
